@@ -85,7 +85,8 @@ theorem break_never_leaves_main_loop (pre body : Reduino.Lang.Stmt) (h : Reduino
     happen once, the body's once per pass, with values persisting -/
 theorem split_preserves_behaviour (p : Reduino.Lang.Prog) (c : Reduino.Lang.CProg) (N fuel : Nat) (t : List Reduino.Lang.Ev)
     (hin : Reduino.Lang.InF p = true) (htr : Reduino.Lang.tr p = .ok c) (hpy : Reduino.Lang.Py.run p N fuel = .ok t) :
-    ∃ fuel', Reduino.Lang.C.run c N fuel' = .ok t ∨ Reduino.Lang.C.run c N fuel' = .error .overflow :=
+    ∃ fuel', Reduino.Lang.C.run c N fuel' = .ok t ∨ Reduino.Lang.C.run c N fuel' = .error .overflow ∨
+      Reduino.Lang.C.run c N fuel' = .error .signedDiv :=
   Reduino.Props.C01.C01_partial p c N fuel t hin htr hpy
 
 /-- a Button declared at the top of the loop body is configured but NOT sampled in setup(): see C15's
